@@ -975,3 +975,7 @@ MUTANTS.extend(_R5_W2)
 from mutants_r6_w2 import E as _R6_W2  # noqa: E402
 
 MUTANTS.extend(_R6_W2)
+
+from mutants_r7_w2 import E as _R7_W2  # noqa: E402
+
+MUTANTS.extend(_R7_W2)
